@@ -72,6 +72,16 @@ fn gen_name(rng: &mut Rng) -> String {
 /// A header value: printable characters incl. every separator a parser might be tempted to split
 /// on, inner blanks, and some non-ASCII text; no control characters, no leading/trailing blanks.
 fn gen_value(rng: &mut Rng) -> String {
+    if rng.chance(1, 25) {
+        // a long value, with lengths on and around typical buffer sizes
+        let n = *rng.pick(&[255usize, 256, 1000, 1024, 4095, 4096, 8191, 8192, 9000]);
+        let unit = *rng.pick(&["v", "ab,", "x:y ", "\u{e9}"]);
+        let mut s = String::new();
+        while s.chars().count() < n {
+            s.push_str(unit);
+        }
+        return s.trim().to_string();
+    }
     if rng.chance(1, 3) {
         return rng.pick(&VALUES).to_string();
     }
@@ -147,10 +157,14 @@ pub fn generate(seed: u64, w: &World, with_big: bool, with_stalls: bool) -> Valu
     let is_one_of = rng.chance(1, 2);
     let specify_by_url = rng.chance(1, 2);
     let no_ssl = rng.chance(1, 4);
-    let nheaders = if rng.chance(1, 3) { 0 } else { rng.range(1, 5) };
+    // (1 run in 40: many headers)
+    let nheaders = if rng.chance(1, 40) { rng.range(30, 90) } else if rng.chance(1, 3) { 0 } else { rng.range(1, 5) };
     let allow_refused = rng.chance(1, 3);
     let headers: Vec<String> = (0..nheaders).map(|_| gen_header(&mut rng, allow_refused)).collect();
-    let authorization = if rng.chance(1, 3) {
+    let long_token: &'static str = Box::leak(format!("eyJ{}.sig", "Qx9_-".repeat(*rng.pick(&[60usize, 400, 1700]))).into_boxed_str());
+    let authorization = if rng.chance(1, 40) {
+        Some(long_token)
+    } else if rng.chance(1, 3) {
         Some(*rng.pick(&["abc123", "tok.en-with_chars~", "t0ken with space", "eyJhbGciOiJIUzI1NiJ9.e30.x", "a,b", "k=v;x", "Bearer nested", "p@ss:w0rd/+=="]))
     } else {
         None
